@@ -214,14 +214,16 @@ def _cat_col(tf_list: list[TensorFrame]) -> TensorFrame:
             f"Cannot perform cat(..., dim=1) since the following column names "
             f"are duplicated across stypes: {duplicates}.")
 
+    # All parts must have the same number of rows (a part without features
+    # only carries its row count, which `validate` would never see).
+    if any(len(tf) != len(tf_list[0]) for tf in tf_list):
+        raise RuntimeError(
+            "Cannot perform cat(..., dim=1) since given tensor frames "
+            "have different numbers of rows.")
     feat_dict = _cat_helper(tf_list, dim=1)
     num_rows = None
     if len(feat_dict) == 0:
         # Without features the number of rows must be carried explicitly.
         num_rows = len(tf_list[0])
-        if any(len(tf) != num_rows for tf in tf_list):
-            raise RuntimeError(
-                "Cannot perform cat(..., dim=1) since given tensor frames "
-                "have different numbers of rows.")
     return TensorFrame(feat_dict=feat_dict, col_names_dict=col_names_dict,
                        y=y, num_rows=num_rows)
